@@ -339,80 +339,88 @@ def rule_G5(ctx: Ctx) -> None:
         ctx.judge(f, sf == want, {"slice": X.U(subs[0]), "form": sf, "expected": want}, "first max_count items: mazes[:max_count]",
                   "truncation keeps a different range")
 
-    # remove_duplicates
+    # remove_duplicates (canonical form: `kept = [a for i, a in enumerate(S) if not any(<too similar> for b in S[i + 1:])]`; a search loop
+    # with a flag and `break`, an `any(...)` over a closure, and the nested comprehension all normalise to it)
     f = fl.get("remove_duplicates") or ctx.index.func(f"{NS}.remove_duplicates")
     dsn = f.params()[0]
-    outer = [n for n in N.walk_no_nested_defs(f.node) if isinstance(n, ast.For) and isinstance(n.iter, ast.Call) and dotted_of(n.iter.func) == "enumerate"]
-    if len(outer) != 1:
-        # located by role: the loop nest that compares pairs of mazes (a `for` directly containing a `for`)
+    cand = []
+    for n in N.walk_no_nested_defs(f.node):
+        if isinstance(n, ast.ListComp) and len(n.generators) == 1 and n.generators[0].ifs:
+            for t_ in n.generators[0].ifs:
+                neg = isinstance(t_, ast.UnaryOp) and isinstance(t_.op, ast.Not)
+                inner_ = t_.operand if neg else t_
+                if isinstance(inner_, ast.Call) and dotted_of(inner_.func) in ("any", "all") and inner_.args and isinstance(inner_.args[0], (ast.GeneratorExp, ast.ListComp)):
+                    cand.append((n, neg, inner_))
+    exp_later = "each maze is compared with the *later* mazes of the input only: mazes[i + 1:]; it is kept iff none of them is too similar"
+    if len(cand) != 1:
+        # located by role: the search `any(<criteria mentioning the thresholds> for b in <domain>)`, or a loop nest comparing pairs
+        searches = [c_ for c_ in X.calls(f.node) if dotted_of(c_.func) == "any" and c_.args and isinstance(c_.args[0], (ast.GeneratorExp, ast.ListComp))
+                    and "minimum_difference" in X.U(c_.args[0].elt)]
         nests = [n for n in N.walk_no_nested_defs(f.node) if isinstance(n, ast.For) and any(isinstance(b_, ast.For) for b_ in n.body)]
-        if len(nests) == 1:
+        if len(searches) == 1:
+            dom = searches[0].args[0].generators[0].iter
+            later = isinstance(dom, ast.Subscript) and isinstance(dom.slice, ast.Slice) and X.U(dom.value) == f"{dsn}.mazes"
+            ctx.judge(f, False if not later else None, {"search_domain": X.U(dom)}, exp_later,
+                      "a maze is compared with another set (e.g. only the mazes kept so far): near-duplicate chains A~B~C keep A although a later maze is within the thresholds", node=searches[0])
+        elif len(nests) == 1:
             inner_ = [b_ for b_ in nests[0].body if isinstance(b_, ast.For)][0]
             seq = nests[0].iter
             while isinstance(seq, ast.Call) and seq.args and dotted_of(seq.func) in ("reversed", "enumerate", "list", "tuple"):
                 seq = seq.args[0]
             later = isinstance(inner_.iter, ast.Subscript) and isinstance(inner_.iter.slice, ast.Slice) and X.U(inner_.iter.value) == X.U(seq)
             if not later:
-                ctx.violation(f, {"outer": X.U(nests[0].iter), "inner_range": X.U(inner_.iter)},
-                              "each maze is compared with the *later* mazes of the input only: mazes[i + 1:]",
+                ctx.violation(f, {"outer": X.U(nests[0].iter), "inner_range": X.U(inner_.iter)}, exp_later,
                               "a maze is compared with another set (e.g. only the mazes kept so far): near-duplicate chains A~B~C keep A although a later maze is within the thresholds", node=inner_)
             else:
-                ctx.unknown(f, {"outer": X.U(nests[0].iter), "inner_range": X.U(inner_.iter)}, "one enumerate loop over the mazes")
+                ctx.unknown(f, {"outer": X.U(nests[0].iter), "inner_range": X.U(inner_.iter)}, exp_later)
         else:
-            ctx.unknown(f, {"outer_loops": len(outer)}, "one enumerate loop over the mazes")
+            ctx.unknown(f, {"filtering_comprehensions_with_any": len(cand)}, exp_later)
     else:
-        o = outer[0]
-        i_name = o.target.elts[0].id
-        a_name = o.target.elts[1].id
-        inner = [n for n in o.body if isinstance(n, ast.For)]
-        slot = {}
+        comp, neg, anyc = cand[0]
+        g0 = comp.generators[0]
+        gi = anyc.args[0].generators[0]
+        enum_ok = isinstance(g0.iter, ast.Call) and dotted_of(g0.iter.func) == "enumerate" and len(g0.iter.args) == 1 and isinstance(g0.target, ast.Tuple) and len(g0.target.elts) == 2
+        slot = {"kept": X.U(comp.elt), "outer": X.U(g0.iter), "inner_range": X.U(gi.iter), "keeps_if": ("not " if neg else "") + dotted_of(anyc.func)}
         ok_inner = None
-        if len(inner) == 1 and isinstance(inner[0].iter, ast.Subscript) and isinstance(inner[0].iter.slice, ast.Slice):
-            sf = N.slice_form(inner[0].iter.slice)
-            want = N.slice_form(X.expr_of(f"x[{i_name} + 1:]").slice)
-            ok_inner = sf == want and X.U(inner[0].iter.value) == X.U(o.iter.args[0])
-            slot["inner_range"] = X.U(inner[0].iter)
-        ctx.judge(f, ok_inner, slot, "each maze is compared with the *later* mazes only: mazes[i + 1:]",
-                  "comparing with itself or with earlier mazes removes every duplicate pair entirely / keeps the wrong copy", node=o)
-        # thresholds `np.sum(a != b) <= minimum_difference_*` -> flag False; break
-        flag_defs = [n for n in o.body if isinstance(n, (ast.Assign, ast.AnnAssign)) and isinstance(getattr(n, "value", None), ast.Constant) and n.value.value is True]
-        flag = None
-        if flag_defs:
-            t = flag_defs[0].targets[0] if isinstance(flag_defs[0], ast.Assign) else flag_defs[0].target
-            flag = t.id
-        tests = []
-        if inner:
-            for n in ast.walk(inner[0]):
-                if isinstance(n, ast.If) and any(isinstance(s, ast.Assign) and X.U(s.targets[0]) == flag and isinstance(s.value, ast.Constant) and s.value.value is False for s in n.body):
-                    tests.append(n)
-        # the criteria: every disjunct of every flag-clearing test (two separate tests, or one test `A or B`)
-        crit = []
-        for t in tests:
-            nf_ = N.boolean_nf(X.substitute_len(t.test))
-            for d_ in (nf_[1] if isinstance(nf_, tuple) and nf_[0] == "or" else [nf_]):
-                crit.append((t, d_))
-        for thr, fieldn in (("minimum_difference_connection_list", "connection_list"), ("minimum_difference_solution", "solution")):
-            hit_c = [(t, d_) for t, d_ in crit if thr in N.nf_str(d_)]
-            if len(hit_c) != 1:
-                ctx.unknown(f, {"threshold": thr, "tests": len(hit_c)}, "one threshold test per criterion")
-                continue
-            hit = [hit_c[0][0]]
-            b_name = inner[0].target.id
-            a_, b_ = f"{a_name}.{fieldn}", f"{b_name}.{fieldn}"
-            # (normalised form: one conjunction `thr is not None and shapes equal and <distance> <= thr`)
-            nf = hit_c[0][1]
-            atoms = {a.key() for a in N.nf_atoms(nf)} if (isinstance(nf, N.Atom) or nf[0] == "and") else None
-            dist_keys = {N.boolean_nf(X.expr_of(t.format(a=x, b=y, thr=thr))).key() for x, y in ((a_, b_), (b_, a_)) for t in (
-                "np.sum({a} != {b}) <= {thr}", "({a} != {b}).sum() <= {thr}", "np.count_nonzero({a} != {b}) <= {thr}")}
-            guard_keys = {N.boolean_nf(X.expr_of(f"{thr} is not None")).key()}
-            shape_keys = {N.boolean_nf(X.expr_of(f"{x}.shape == {y}.shape")).key() for x, y in ((a_, b_), (b_, a_))}
-            ok = atoms is not None and bool(atoms & dist_keys) and guard_keys <= atoms and bool(atoms & shape_keys) and len(atoms) == 3
-            slot = {"found": N.nf_str(nf), "expected": f"{thr} is not None and equal shapes and count of differing entries <= {thr}"}
-            brk = any(isinstance(s, ast.Break) for s in hit[0].body)
-            slot["breaks"] = brk
-            ctx.judge(f, ok if ok is not True else True, slot, f"near-duplicate iff number of differing {fieldn} entries <= threshold", node=hit[0])
-        keep = [n for n in o.body if isinstance(n, ast.If) and X.U(n.test) == flag and any("append" in X.U(s) and a_name in X.U(s) for s in n.body)]
-        ctx.judge(f, bool(keep) if flag else None, {"flag": flag, "keeps_when_flag": bool(keep)}, "a maze is kept iff no later maze matched")
+        if enum_ok:
+            i_name, a_name = g0.target.elts[0].id, g0.target.elts[1].id
+            seq = g0.iter.args[0]
+            if isinstance(gi.iter, ast.Subscript) and isinstance(gi.iter.slice, ast.Slice):
+                sf = N.slice_form(gi.iter.slice)
+                want = N.slice_form(X.expr_of(f"x[{i_name} + 1:]").slice)
+                ok_inner = sf == want and X.U(gi.iter.value) == X.U(seq) and X.U(seq) == f"{dsn}.mazes" and X.U(comp.elt) == a_name \
+                    and neg and dotted_of(anyc.func) == "any" and len(anyc.args[0].generators) == 1 and not gi.ifs and len(g0.ifs) == 1
+            else:
+                ok_inner = False
+        ctx.judge(f, ok_inner, slot, exp_later,
+                  "comparing with itself, with earlier mazes or with the mazes kept so far removes every duplicate pair entirely / keeps the wrong copy", node=comp)
+        if enum_ok and isinstance(gi.target, ast.Name):
+            b_name = gi.target.id
+            crit_e = anyc.args[0].elt
+            while isinstance(crit_e, ast.Call) and dotted_of(crit_e.func) == "bool" and len(crit_e.args) == 1:
+                crit_e = crit_e.args[0]
+            nf_ = N.boolean_nf(X.substitute_len(crit_e))
+            disj = list(nf_[1]) if isinstance(nf_, tuple) and nf_[0] == "or" else [nf_]
+            for thr, fieldn in (("minimum_difference_connection_list", "connection_list"), ("minimum_difference_solution", "solution")):
+                hit_c = [d_ for d_ in disj if thr in N.nf_str(d_)]
+                if len(hit_c) != 1:
+                    ctx.judge(f, False if not hit_c else None, {"threshold": thr, "disjuncts_mentioning_it": len(hit_c)}, "one threshold test per criterion",
+                              "a criterion is missing: mazes that differ only in the other component are never / always considered duplicates")
+                    continue
+                d_ = hit_c[0]
+                atoms = {a.key() for a in N.nf_atoms(d_)} if not (isinstance(d_, tuple) and d_[0] == "or") else None
+                a_, b_ = f"{a_name}.{fieldn}", f"{b_name}.{fieldn}"
+                dist_keys = {N.boolean_nf(X.expr_of(t.format(a=x, b=y, thr=thr))).key() for x, y in ((a_, b_), (b_, a_)) for t in (
+                    "np.sum({a} != {b}) <= {thr}", "({a} != {b}).sum() <= {thr}", "np.count_nonzero({a} != {b}) <= {thr}")}
+                guard_keys = {N.boolean_nf(X.expr_of(f"{thr} is not None")).key()}
+                shape_keys = {N.boolean_nf(X.expr_of(f"{x}.shape == {y}.shape")).key() for x, y in ((a_, b_), (b_, a_))}
+                ok = atoms is not None and bool(atoms & dist_keys) and guard_keys <= atoms and bool(atoms & shape_keys) and len(atoms) == 3
+                ctx.judge(f, ok, {"found": N.nf_str(d_), "expected": f"{thr} is not None and equal shapes and count of differing entries <= {thr}"},
+                          f"near-duplicate iff number of differing {fieldn} entries <= threshold", node=comp)
+        rets = X.returns_of(f.node)
+        used = any(isinstance(r_.value, ast.AST) and any(x is comp for x in ast.walk(X.expand_locals(r_.value, f.node))) or
+                   any(isinstance(x, ast.ListComp) and X.norm_dump(x) == X.norm_dump(comp) for x in ast.walk(X.expand_locals(r_.value, f.node))) for r_ in rets if r_.value is not None)
+        ctx.judge(f, used, {"returned": [X.U(r_.value)[:80] for r_ in rets]}, "the kept mazes (in input order) are what the result is built from")
 
     # remove_duplicates_fast: list(dict.fromkeys(mazes))
     f = fl.get("remove_duplicates_fast") or ctx.index.func(f"{NS}.remove_duplicates_fast")
